@@ -8,7 +8,7 @@
    matches at a position, the default processor, the loop of `Model: v*=T;`).  The writing side
    (quote, dec_text, float_chars, bool_spellings) is Model/BaseLits.v. *)
 From TxV Require Import Core.Base Model.Rx Gen.SrcRegex Gen.SrcBaseConv Model.BaseTypes Model.BaseLits
-  Proofs.RxProofs Proofs.BaseTypesProofs.
+  Proofs.RxProofs Proofs.RxLibProofs Proofs.BaseTypesProofs.
 
 (* ---- STRING.  Any strings that do not end in a backslash, each written between either quote
    character with only that quote escaped, separated by any (possibly empty) whitespace, on one line
@@ -208,3 +208,40 @@ Example C04_rx_fuel_nonvacuous :
   = [([50; 49]%N, [97]%N); ([49]%N, [50; 97]%N)].
 Proof. vm_compute. reflexivity. Qed.
 Print Assumptions C04_rx_fuel_nonvacuous.
+
+(* ---- general facts about the engine, for reuse by other properties (Proofs/RxLibProofs.v) *)
+
+(* a literal pattern (as the translator emits it) matches exactly when the input starts with the literal *)
+Theorem C04_rx_literal : forall E l pre s,
+  rx_match E (rx_lit l) pre s = if lit_pre E l s then Some (length l) else None.
+Proof. exact rx_match_lit. Qed.
+Print Assumptions C04_rx_literal.
+
+(* the keyword pattern `lit\b`: the literal, then a word boundary between the last consumed character and the next.
+   (Proofs/RxKwProofs.rx_kw_agrees_with_kw_match: this is the hand-written kw_match of Model/Kw.v, for every
+   literal, input and position.) *)
+Theorem C04_rx_keyword : forall E l pre s,
+  rx_match E (rx_kw l) pre s =
+  if (lit_pre E l s && word_boundary E (rev (firstn (length l) s) ++ pre, skipn (length l) s))%bool
+  then Some (length l) else None.
+Proof. exact rx_match_kw. Qed.
+Print Assumptions C04_rx_keyword.
+
+(* IGNORECASE: for EVERY regex of the subset, inputs that differ only in the case of ASCII letters (before and
+   after the match position) give the same match *)
+Theorem C04_rx_ignorecase : forall E r pre1 pre2 rest1 rest2,
+  e_ignorecase E = true ->
+  Forall2 (fun a b => lower_ascii a = lower_ascii b) pre1 pre2 ->
+  Forall2 (fun a b => lower_ascii a = lower_ascii b) rest1 rest2 ->
+  rx_match E r pre1 rest1 = rx_match E r pre2 rest2.
+Proof. exact rx_match_ignorecase. Qed.
+Print Assumptions C04_rx_ignorecase.
+
+Example C04_rx_lib_nonvacuous :
+  let E := mkenv true true false ascii_only in
+  rx_match E (rx_kw [105; 102]%N) [] [73; 70; 32; 120]%N = Some 2%nat /\
+  rx_match E (rx_kw [105; 102]%N) [] [105; 102; 120]%N = None /\
+  rx_match (env_ml ascii_only) (rx_lit [105; 102]%N) [] [73; 70]%N = None /\
+  Forall2 (fun a b => lower_ascii a = lower_ascii b) [73; 70; 32; 120]%N [105; 102; 32; 88]%N.
+Proof. vm_compute. repeat split; try reflexivity; repeat constructor. Qed.
+Print Assumptions C04_rx_lib_nonvacuous.
